@@ -8,6 +8,7 @@ def handle (line : String) : String :=
   | "S" :: ops :: _ => runSent ops
   | "H" :: cfg :: preds :: ops :: _ => runH cfg preds ops
   | "F" :: cfg :: m :: pt :: h :: _ => runF cfg m pt h
+  | "E" :: h :: _ => runE h
   | "B" :: r => runBin ("B" :: r)
   | "RS" :: r => runBin ("RS" :: r)
   | "RX" :: r => runBin ("RX" :: r)
